@@ -429,6 +429,12 @@ class World:
         if self.threading_off:
             self.klass.disable_multithreading()  # exercises the non-atomic in-place write path
         self.resources = resources or [env.resource_for(cfg.clsname, i) for i in cfg.initial]
+        if getattr(cfg, "options", {}).get("relative_names"):
+            # the library is given RELATIVE file names (the process works in the scratch directory); the harness keeps
+            # reading the files by their absolute paths
+            os.chdir(env.scratch_dir())
+            for r in self.resources:
+                r.relative = True
         self.objects = []
         self.obj_res = []
         self.handle_objs = []
@@ -527,7 +533,8 @@ class World:
             return ("ok", None)
         try:
             if t == "setfilename":
-                self.objects[ev[1]].filename = self.resources[ev[2]].path
+                res_ = self.resources[ev[2]]
+                self.objects[ev[1]].filename = res_.libname() if hasattr(res_, "libname") else res_.path
                 self.obj_res[ev[1]] = ev[2]
             elif t == "enter":
                 self.objects[ev[1]].buffered.__enter__()
